@@ -38,6 +38,8 @@ type Program struct {
 	loadSecs    float64
 	lemmas      []*SmtLemma
 	opImpls     []opImpl
+	noFamilies  bool // lemma selection variant (set on per-query copies only)
+	legacyLemmas bool // single-phase first round, loose tuple matching (variant, per-query copies only)
 }
 
 func loadProgram(repo, verifDir string) (*Program, error) {
